@@ -136,7 +136,7 @@ impl Property for C05 {
         ]
     }
     fn generate(&self, rng: &mut Rng, _case: u64) -> Scenario {
-        let mut sc = gen::gen_io(rng, &IoOpts { multi_project_pct: 20, max_targets: 3, cmd_pct: 15, cmd_output_pct: 0, own_output_inside_input_pct: 0 });
+        let mut sc = gen::gen_io(rng, &IoOpts { multi_project_pct: 20, max_targets: 3, cmd_pct: 15, cmd_output_pct: 0, own_output_inside_input_pct: 0, long_name_len: 0 });
         // builds only, reachable from the root by name
         let mut all = vec![];
         for &pi in &gen::loaded_projects(&sc, 0) {
